@@ -364,3 +364,21 @@ def shrink(case):
     if c.get('items'):
         for k in range(len(c['items'])):
             yield dict(c, items=c['items'][:k] + c['items'][k + 1:])
+
+
+def smoke_cases(ctx, n):
+    from harness.check import draw_env
+    rng = ctx.rng
+    out = []
+    for i in range(n):
+        kind = rng.choice(KINDS)
+        fl = rng.choice(targets_for(kind))[0]
+        pol, knobs = draw_env(rng, tcp=lib.is_remote(kind))
+        fault = None
+        ending = 'natural'
+        if lib.base_kind(kind) != 'thread' and rng.random() < 0.5:
+            ending = rng.choice(['sigkill', 'sigterm'])
+            fault = {'kind': ending, 'role': None, 'nline': rng.randrange(5, 120)}
+        out.append(mk_case(ctx, kind, fl, ending, rng.choice(['wait', 'terminate', 'poll']), i, fault=fault, policy=pol,
+                           knobs=knobs, tag='smoke'))
+    return out
